@@ -12,6 +12,13 @@ pub open spec fn tdf_glyph(b: Seq<u8>, o: int, color: bool) -> Seq<u8>
     else if color && b[o] != 13 { if o + 1 >= b.len() { seq![b[o]] } else { seq![b[o], b[o + 1]] + tdf_glyph(b, o + 2, color) } }
     else { seq![b[o]] + tdf_glyph(b, o + 1, color) }
 }
+// shared by the writer (record_closed: what it writes is terminated) and the reader (acceptance: what it may refuse): decoding e from byte i ends at a terminator inside e (never runs past its end, never swallows the last byte as an attribute)
+pub open spec fn tdf_in(e: Seq<u8>, i: int, color: bool) -> bool
+    decreases e.len() - i
+{
+    if i < 0 || i >= e.len() { false } else if e[i] == 0 { true }
+    else if color && e[i] != 13 { i + 1 < e.len() && tdf_in(e, i + 2, color) } else { tdf_in(e, i + 1, color) }
+}
 pub open spec fn table_ok(ct: Seq<Option<FontGlyph>>, b: Seq<u8>, of: int, n: int) -> bool {
     &&& forall|k: int| 0 <= k < n ==> ((#[trigger] ct[k]) is None) == (u16le(b, of + 25 + 2 * k) == 0xFFFF)
     &&& forall|k: int| 0 <= k < n && u16le(b, of + 25 + 2 * k) != 0xFFFF ==> {
@@ -31,4 +38,27 @@ pub open spec fn tdf_start(b: Seq<u8>, n: nat) -> int
     decreases n
 {
     if n == 0 { 20 } else { tdf_start(b, (n - 1) as nat) + 213 + u16le(b, tdf_start(b, (n - 1) as nat) + 23) }
+}
+pub uninterp spec fn tdf_id_ok(b: Seq<u8>) -> bool;     // bytes 1..19 spell the TheDraw id (slice comparison: uninterpreted)
+// u32::from_le_bytes of a 4-byte slice
+pub open spec fn tdf_u32(b: Seq<u8>) -> u32 { (b[0] as int + 256 * (b[1] as int) + 65536 * (b[2] as int) + 16777216 * (b[3] as int)) as u32 }
+// acceptance: which byte strings the reader may refuse. A file is refused only if its 20-byte header is wrong or some font record
+// the reader reaches (record n starts at tdf_start(b, n), inside the file, with a non-zero first byte) is malformed.
+pub open spec fn tdf_header_ok(b: Seq<u8>) -> bool { b.len() >= 233 && b[0] == 19 && tdf_id_ok(b) && b[19] == 0x1A }
+// entry k of the offset table of the font at `of`: unused (0xFFFF), or inside the glyph block with size bytes and a terminated string in the file
+pub open spec fn tdf_slot_ok(b: Seq<u8>, of: int, k: int) -> bool {
+    let off = u16le(b, of + 25 + 2 * k);
+    off == 0xFFFF || (off < u16le(b, of + 23) && of + 213 + off + 2 <= b.len() && tdf_in(b, of + 213 + off + 2, b[of + 21] == 2))
+}
+pub open spec fn tdf_font_ok(b: Seq<u8>, of: int) -> bool {
+    &&& of + 213 <= b.len()
+    &&& tdf_u32(b.subrange(of, of + 4)) == 0xFF00_AA55u32
+    &&& b[of + 4] <= 12
+    &&& b[of + 21] <= 2
+    &&& b[of + 22] <= 40
+    &&& forall|k: int| 0 <= k < 94 ==> #[trigger] tdf_slot_ok(b, of, k)
+}
+pub open spec fn tdf_bad_font(b: Seq<u8>, n: nat) -> bool {
+    let of = tdf_start(b, n);
+    0 <= of < b.len() && b[of] != 0 && !tdf_font_ok(b, of)
 }
